@@ -212,6 +212,13 @@ def run_check(tier, seed):
         segment_layer_part(sub, seed)
     except EngineError as e:
         ck.inconclusive.append('interface fact (segment layer delivers complete records across a crash and restart) not decidable: %s' % e)
+    # the first layer: what the poller sends for a poll is this poll's report with the PHC error bound read at this poll (added exactly when the
+    # PHC is the reference; an unreadable bound means no measurement) - the message table of one poller iteration, all environment answers
+    try:
+        from .daemon_poller import poller_table
+        poller_table(sub, prog_d, w1, tier, seed)
+    except EngineError as e:
+        ck.inconclusive.append('interface fact (poller message table) not decidable: %s' % e)
     # fourth interface fact (the last layer): the interval a client gets from the Rust or the C library is exactly the one
     # ClockErrorBound::now() computed for the snapshot and clock readings of THAT call (no state of the client object enters)
     try:
